@@ -625,8 +625,8 @@ class GenFunctions(object):
         )
 
         fcn = cls.add_function(decl, splicer=splicer)
-        fcn.wrap.lua = False
-        fcn.wrap.python = False
+        # Wrapped like the variable; Python uses a descriptor.
+        fcn.wrap.assign(c=var.wrap.c, fortran=var.wrap.fortran)
 
         # setter
         if ast.attrs["readonly"]:
@@ -660,8 +660,7 @@ class GenFunctions(object):
         fcn = cls.add_function(decl, attrs=attrs, splicer=splicer)
         # XXX - The function is not processed like other, so set intent directly.
         fcn.ast.params[0].metaattrs["intent"] = "in"
-        fcn.wrap.lua = False
-        fcn.wrap.python = False
+        fcn.wrap.assign(c=var.wrap.c, fortran=var.wrap.fortran)
 
     def instantiate_all_classes(self, node):
         """Instantate all class template_arguments recursively.
